@@ -60,17 +60,24 @@ func main() {
 		}
 	}
 
-	// order hook
+	// order hook: every non-test file of package engine
 	engFile := filepath.Join(*repo, "engine", "GruleEngine.go")
 	done := map[string]bool{}
-	if n, src := instrumentFile(engFile, true, false, "engine"); n > 0 {
-		dst := filepath.Join(*out, "src", "engine_GruleEngine.go")
-		must(os.WriteFile(dst, src, 0o644))
-		replace[engFile] = dst
-		rep.OrderSites = n
-		rep.Files = append(rep.Files, engFile)
-		done[engFile] = true
+	engFiles, _ := filepath.Glob(filepath.Join(*repo, "engine", "*.go"))
+	for _, ef := range engFiles {
+		if strings.HasSuffix(ef, "_test.go") {
+			continue
+		}
+		if n, src := instrumentFile(ef, true, false, "engine"); n > 0 {
+			dst := filepath.Join(*out, "src", "engine_"+filepath.Base(ef))
+			must(os.WriteFile(dst, src, 0o644))
+			replace[ef] = dst
+			rep.OrderSites += n
+			rep.Files = append(rep.Files, ef)
+			done[ef] = true
+		}
 	}
+	_ = engFile
 
 	kbFile := filepath.Join(*repo, "ast", "KnowledgeBase.go")
 	if n, src := instrumentFile(kbFile, false, false, "ast"); n > 0 && !*points {
@@ -96,7 +103,7 @@ func main() {
 				if pkgDir == "ast" && (base == "Serializer.go" || base == "Ast.go") {
 					continue
 				}
-				n, src := instrumentFile(f, f == engFile, true, pkgDir)
+				n, src := instrumentFile(f, pkgDir == "engine", true, pkgDir)
 				if n > 0 {
 					dst := filepath.Join(*out, "src", pkgDir+"_"+base)
 					must(os.WriteFile(dst, src, 0o644))
@@ -127,8 +134,19 @@ func instrumentFile(path string, order, points bool, pkg string) (int, []byte) {
 		return 0, nil
 	}
 	n := 0
-	if order {
-		ast.Inspect(f, func(nd ast.Node) bool {
+	// every `range <x>.RuleEntries` inside a function: the harness, not the Go runtime, decides the order.
+	//   for _, v := range M      ->  for _, v := range verifhook.Order(site, M)
+	//   for range M              ->  for range verifhook.Order(site, M)
+	//   for k := range M         ->  for _, k := range verifhook.Keys(site, M)
+	//   for k, v := range M      ->  for _, k := range verifhook.Keys(site, M) { v := M[k]; ... }
+	// order: all forms (package engine); keyed: only the two-variable form (KnowledgeBase.Clone, and every file of the C09 build)
+	for _, d := range f.Decls {
+		fd, ok := d.(*ast.FuncDecl)
+		if !ok || fd.Body == nil {
+			continue
+		}
+		site := pkg + "." + funcName(fd)
+		ast.Inspect(fd.Body, func(nd ast.Node) bool {
 			rs, ok := nd.(*ast.RangeStmt)
 			if !ok {
 				return true
@@ -137,42 +155,42 @@ func instrumentFile(path string, order, points bool, pkg string) (int, []byte) {
 			if !ok || sel.Sel.Name != "RuleEntries" {
 				return true
 			}
-			// only `for _, v := range` / `for range`: the key must be unused
-			if id, ok := rs.Key.(*ast.Ident); rs.Key != nil && (!ok || id.Name != "_") {
-				return true
+			siteLit := &ast.BasicLit{Kind: token.STRING, Value: fmt.Sprintf("%q", site)}
+			used := func(e ast.Expr) bool {
+				if e == nil {
+					return false
+				}
+				id, ok := e.(*ast.Ident)
+				return !ok || id.Name != "_"
 			}
-			rs.X = &ast.CallExpr{
-				Fun:  &ast.SelectorExpr{X: ast.NewIdent("verifhook"), Sel: ast.NewIdent("Order")},
-				Args: []ast.Expr{rs.X},
-			}
-			n++
-			return true
-		})
-	}
-	if keyed {
-		// harness-chosen iteration for `for k, v := range X.RuleEntries` (clone order decides the
-		// sequence of yield points): for _, k := range verifhook.Keys(X.RuleEntries) { v := X.RuleEntries[k]; ... }
-		ast.Inspect(f, func(nd ast.Node) bool {
-			rs, ok := nd.(*ast.RangeStmt)
-			if !ok || rs.Tok != token.DEFINE {
-				return true
-			}
-			sel, ok := rs.X.(*ast.SelectorExpr)
-			if !ok || sel.Sel.Name != "RuleEntries" {
-				return true
-			}
-			k, ok1 := rs.Key.(*ast.Ident)
-			v, ok2 := rs.Value.(*ast.Ident)
-			if !ok1 || !ok2 || k.Name == "_" || v.Name == "_" {
-				return true
-			}
+			keyUsed, valUsed := used(rs.Key), used(rs.Value)
 			orig := rs.X
-			rs.X = &ast.CallExpr{Fun: &ast.SelectorExpr{X: ast.NewIdent("verifhook"), Sel: ast.NewIdent("Keys")}, Args: []ast.Expr{orig}}
-			rs.Value = ast.NewIdent(k.Name)
-			rs.Key = ast.NewIdent("_")
-			assign := &ast.AssignStmt{Lhs: []ast.Expr{ast.NewIdent(v.Name)}, Tok: token.DEFINE, Rhs: []ast.Expr{&ast.IndexExpr{X: orig, Index: ast.NewIdent(k.Name)}}}
-			rs.Body.List = append([]ast.Stmt{assign}, rs.Body.List...)
-			n++
+			switch {
+			case !keyUsed && order:
+				rs.X = &ast.CallExpr{Fun: &ast.SelectorExpr{X: ast.NewIdent("verifhook"), Sel: ast.NewIdent("Order")}, Args: []ast.Expr{siteLit, orig}}
+				n++
+			case keyUsed && !valUsed && order && rs.Tok == token.DEFINE:
+				k, ok := rs.Key.(*ast.Ident)
+				if !ok {
+					return true
+				}
+				rs.X = &ast.CallExpr{Fun: &ast.SelectorExpr{X: ast.NewIdent("verifhook"), Sel: ast.NewIdent("Keys")}, Args: []ast.Expr{siteLit, orig}}
+				rs.Key = ast.NewIdent("_")
+				rs.Value = ast.NewIdent(k.Name)
+				n++
+			case keyUsed && valUsed && (order || keyed) && rs.Tok == token.DEFINE:
+				k, ok1 := rs.Key.(*ast.Ident)
+				v, ok2 := rs.Value.(*ast.Ident)
+				if !ok1 || !ok2 {
+					return true
+				}
+				rs.X = &ast.CallExpr{Fun: &ast.SelectorExpr{X: ast.NewIdent("verifhook"), Sel: ast.NewIdent("Keys")}, Args: []ast.Expr{siteLit, orig}}
+				rs.Value = ast.NewIdent(k.Name)
+				rs.Key = ast.NewIdent("_")
+				assign := &ast.AssignStmt{Lhs: []ast.Expr{ast.NewIdent(v.Name)}, Tok: token.DEFINE, Rhs: []ast.Expr{&ast.IndexExpr{X: orig, Index: ast.NewIdent(k.Name)}}}
+				rs.Body.List = append([]ast.Stmt{assign}, rs.Body.List...)
+				n++
+			}
 			return true
 		})
 	}
@@ -230,6 +248,21 @@ func instrumentFile(path string, order, points bool, pkg string) (int, []byte) {
 		return 0, nil
 	}
 	return n, buf.Bytes()
+}
+
+// funcName renders "Recv.Name" / "Name".
+func funcName(fd *ast.FuncDecl) string {
+	name := fd.Name.Name
+	if fd.Recv != nil && len(fd.Recv.List) == 1 {
+		t := fd.Recv.List[0].Type
+		if st, ok := t.(*ast.StarExpr); ok {
+			t = st.X
+		}
+		if id, ok := t.(*ast.Ident); ok {
+			name = id.Name + "." + name
+		}
+	}
+	return name
 }
 
 // wantPoint selects the functions that become yield points: everything that reads or writes
